@@ -344,6 +344,58 @@ theorem conservative_of_reads (maxRetry t lat : Nat) (st : Option Nat) (lim : Li
   have := conservative ⟨maxRetry, some t, st, lat, lim⟩ (Script.ofReads s) ⟨fun _ => rfl, fun _ => rfl⟩
   simpa [CfgX.base, Script.ofReads] using this
 
+/-! ### the shape of the call sequence -/
+
+/-- in the trace of a request every action is followed by what `okNext` allows: a write that went out by its read, a
+    failed write by the backoff sleep or nothing, a responsePending read by another read, a sleep by a reconnect or a
+    write, a successful reconnect by the retransmission, a failed reconnect by nothing -/
+theorem trace_shape_io (c : CfgX) (io : Script) : Adj (okNext io) (runX c io).trace :=
+  attemptsX_adj c io 0 0 0 (.missing false)
+
+/-- a TimeoutError / ConnectionError raised by `write()` is handled without a read in that attempt: what follows a
+    failed write in the trace is the backoff sleep (or nothing, on the last attempt) -/
+theorem failed_write_no_read (c : CfgX) (io : Script) (pre post : List OpX) (a : Option Nat) (r : WEv) (d : Nat)
+    (nxt : OpX) (h : (runX c io).trace = pre ++ .wr a r d :: nxt :: post) (hr : r ≠ .ok) : ∃ s, nxt = .sl s := by
+  have := adj_split pre _ _ (h ▸ trace_shape_io c io)
+  cases r <;> simp_all [okNext]
+
+/-- ResponsePending prolongs waiting without retransmission, also in the widened model -/
+theorem pending_no_write_io (c : CfgX) (io : Script) (pre post : List OpX) (k : Nat) (t : Option Nat) (d : Nat)
+    (nxt : OpX) (h : (runX c io).trace = pre ++ .rd k t d :: nxt :: post) (hp : io.rd k = .pending) :
+    nxt.isRd = true := by
+  have := adj_split pre _ _ (h ▸ trace_shape_io c io)
+  simp_all [okNext]
+
+/-- nothing happens after a failed reconnect: its exception leaves `request_unsafe` -/
+theorem reconnect_failed_is_last (c : CfgX) (io : Script) (pre post : List OpX) (e : RcFault)
+    (h : (runX c io).trace = pre ++ .rc (.fail e) :: post) : post = [] := by
+  have := adj_split pre _ _ (h ▸ trace_shape_io c io)
+  cases post <;> simp_all [okNext]
+
+/-- the outcome `reconnectFailed m e` means exactly that: reconnect #m of the script fails with `e` -/
+theorem reconnect_failed_event (c : CfgX) (io : Script) (m : Nat) (e : RcFault)
+    (h : (runX c io).out = .reconnectFailed m e) : io.rc m = .fail e := by
+  have hs := run_sound_io c io
+  rw [h] at hs
+  exact impliedX_rcfail hs
+
+/-- when no reconnect fails the request ends within the property's own vocabulary -/
+theorem no_reconnect_failure (c : CfgX) (io : Script) (h : ∀ m, io.rc m = .ok) : ∃ o, (runX c io).out = .base o := by
+  cases ho : (runX c io).out with
+  | base o => exact ⟨o, rfl⟩
+  | reconnectFailed m e => have := reconnect_failed_event c io m e ho; simp [h m] at this
+
+/-- the deadlines the transport sees: every `write()` gets the effective request timeout (`None` included), the first
+    `read()` of an attempt too, and every poll of the responsePending loop gets `waiting_time` — it goes through
+    `_read`, whose `self.timeout` fallback never applies there -/
+theorem call_timeouts (c : CfgX) (io : Script) (op : OpX) (h : op ∈ (runX c io).trace) :
+    (∀ a r d, op = .wr a r d → a = c.timeout) ∧
+    (∀ k t d, op = .rd k t d → t = c.timeout ∨ t = some c.lim.waiting) := by
+  have := attemptsX_tmoOk c io 0 0 0 (.missing false) op h
+  constructor
+  · rintro a r d rfl; exact this
+  · rintro k t d rfl; exact this
+
 /-! ### `request()`: the mutex -/
 
 /-- `request()` returns / raises what `request_unsafe` does, and every transport call of the request happens between
@@ -401,6 +453,18 @@ example : (runX (exCfgX 2) (scriptX [.timeout] [.timeout, .posFinal] [])).writes
   constructor
   · runx_eval
   · simp [retryEventsX, wrFaultsFrom, retryEvents, retryEventsFrom, stepPhase, scriptX]
+-- hypotheses of `failed_write_no_read` / `reconnect_failed_is_last` are satisfiable
+example : (runX (exCfgX 1) (scriptX [.connErr] [] [.fail .timeout])).trace =
+    [] ++ .wr (some 1000) .connErr 0 :: .sl 200 :: [.rc (.fail .timeout)] := by runx_eval
+example : (runX (exCfgX 1) (scriptX [.connErr] [] [.fail .timeout])).trace =
+    [.wr (some 1000) .connErr 0, .sl 200] ++ .rc (.fail .timeout) :: [] := by runx_eval
+-- … and of `pending_no_write_io`
+example : (runX (exCfgX 0) (scriptX [] [.pending, .posFinal] [])).trace =
+    [.wr (some 1000) .ok 0] ++ .rd 0 (some 1000) 10 :: .rd 1 (some 500) 10 :: [] ∧
+    (scriptX [] [.pending, .posFinal] []).rd 0 = .pending := by
+  constructor
+  · runx_eval
+  · simp [scriptX]
 
 end Widened
 
